@@ -156,6 +156,13 @@ def r04_5(ctx):
              "modifiers pushed without an argument land in the argument slot")
     el = C.role_or_fail(ctx, r, "element_builder")
     dir_ = C.role_or_fail(ctx, r, "directive_parser")
+    # the value slot is not optional: [directive, value, arg?, modifiers?] is positional, an argument can only follow a value
+    nd = ctx.facts.struct_fields("NormalDirective") or []
+    vty = next((f["ty"] for f in nd if f["name"] == "value"), None)
+    if vty is not None:
+        r.ob("a runtime directive always carries a value (the slot before the argument)", not vty.startswith("core::option::Option<"), "-",
+             "NormalDirective.value: %s" % vty.split("::")[-1] if not vty.startswith("core::option::Option<") else
+             "NormalDirective.value is optional (%s): without it the argument / modifiers move one slot to the left" % vty)
     if el:
         r.saw(el["path"])
         for n in walk(el["body"]):
